@@ -420,7 +420,9 @@ pub fn hll_long() -> (u64, Vec<Viol>) {
 
 pub fn cms_long() -> (u64, Vec<Viol>) {
     let (mut cases, mut out) = (0u64, vec![]);
-    for (w, d) in [(7usize, 3usize), (64, 4)] {
+    // shapes incl. ones where (d-1) shares a factor with w: two elements can then collide in the first and the last row
+    // without colliding in between (double hashing), which a "same counters?" shortcut that looks at two rows gets wrong
+    for (w, d) in [(7usize, 3usize), (64, 4), (10, 3), (4, 5), (6, 3), (8, 5)] {
         for &len in &LONG_LENS {
             let items = long_stream(len);
             let mut want: CountMinSketch<u64> = CountMinSketch::with_params(w, d);
